@@ -309,7 +309,7 @@ func ruleRawRead(c *Ctx) {
 		c.und(R, "anchor:Scanner.reader", "-", "field not found")
 		return
 	}
-	allowed := map[string]bool{"(*Scanner).readNext": true, "(*Scanner).Peek": true, "(*Scanner).Newline": true, "NewScanner": true}
+	allowed := map[string]bool{"(*Scanner).readNext": true, "(*Scanner).Next": true, "(*Scanner).Peek": true, "(*Scanner).Newline": true, "NewScanner": true}
 	for _, fn := range p.srcFuncs {
 		if fn.Pkg != p.SPkg("parse") {
 			continue
